@@ -160,7 +160,7 @@ func runC17(c *core.Ctx) {
 	n := c.Pick(500, 4000)
 	c.RunHistories(n, Registry["C17"].Mons, func(w *core.World) {
 		wts := map[string]int{
-			"edit-new": 10, "edit-mod": 8, "edit-rm": 2,
+			"edit-new": 10, "edit-copy": 2, "edit-copydir": 1, "edit-mod": 8, "edit-rm": 2,
 			"add": 18, "add-all": 14, "status": 12, "commit": 6, "rm": 2, "restore": 4, "reset": 5, "restore-staged": 2,
 		}
 		k := NewWalker(w, gen.NameOpts{Space: w.Hist%2 == 0, NonASCII: w.Hist%4 == 0, MaxDepth: 3, N: 5}, wts)
@@ -455,7 +455,7 @@ func runC06Histories(c *core.Ctx) {
 	c.RunHistories(n, mons, func(w *core.World) {
 		w.Hist += 1_000_000
 		wts := map[string]int{
-			"edit-new": 10, "edit-mod": 8, "edit-rm": 4, "edit-rmdir": 2,
+			"edit-new": 10, "edit-copy": 2, "edit-copydir": 1, "edit-mod": 8, "edit-rm": 4, "edit-rmdir": 2,
 			"add": 16, "add-all": 2, "rm": 8, "commit": 6, "commit-all": 3,
 			"restore-staged": 8, "reset": 10, "restore": 2, "ls-files": 6, "switch-c": 1,
 		}
